@@ -1250,3 +1250,108 @@ mutant("exc-valued-rooms-values-at-relative-offset", "C17", SER, "        values
 mutant("ench-connected-tie-by-stored-direction", "C04", GRAPH, """        less_ranks = [((ranks[j] < ranks[i]) & is_active[j]) for j, _ in graph.incident_edges[i]]""", """        less_ranks = [(((ranks[j] < ranks[i]) if graph.edges[e][1] == i else ~(ranks[i] < ranks[j])) & is_active[j]) for j, e in graph.incident_edges[i]]""", "ENC-S")
 variant("ench-connected-strict-written-as-negated-ge", "C04", GRAPH, """        less_ranks = [((ranks[j] < ranks[i]) & is_active[j]) for j, _ in graph.incident_edges[i]]""", """        less_ranks = [((~(ranks[j] >= ranks[i])) & is_active[j]) for j, _ in graph.incident_edges[i]]""", "~(a >= b) is a < b")
 mutant("cfg-sugar-extended-derives-from-sugar", ["C20", "C02"], SUGAR, "class SugarExtendedBackend(SugarLikeBackend):", "class SugarExtendedBackend(SugarBackend):", "REF-6")
+# ---- round 10 (Python-language subtleties) --------------------------------------------------------
+_FOLD_OR_OLD = """def fold_or(*args: Any) -> BoolExpr:
+    operands: List[BoolExpr] = []
+
+    for x in flatten_iterator(*args):
+        if isinstance(x, bool):
+            if x is True:
+                return BoolExpr(Op.BOOL_CONSTANT, [True])
+        elif isinstance(x, BoolExpr):
+            operands.append(x)
+        else:
+            raise TypeError()
+"""
+mutant("opc7-fold-or-walks-arguments-twice", ["C12", "C01"], CONS, _FOLD_OR_OLD, """def fold_or(*args: Any) -> BoolExpr:
+    if any(x is True for x in flatten_iterator(*args)):
+        return BoolExpr(Op.BOOL_CONSTANT, [True])
+
+    operands: List[BoolExpr] = []
+    for x in flatten_iterator(*args):
+        if isinstance(x, BoolExpr):
+            operands.append(x)
+        elif not isinstance(x, bool):
+            raise TypeError()
+""", "OPC-7")
+variant("opc7-fold-or-materialises-then-two-passes", ["C12", "C01"], CONS, _FOLD_OR_OLD, """def fold_or(*args: Any) -> BoolExpr:
+    items = list(flatten_iterator(*args))
+    for x in items:
+        if not isinstance(x, (bool, BoolExpr)):
+            raise TypeError()
+        if x is True:
+            break
+    else:
+        x = None
+    operands: List[BoolExpr] = []
+    for x in items:
+        if isinstance(x, bool):
+            if x is True:
+                return BoolExpr(Op.BOOL_CONSTANT, [True])
+        else:
+            operands.append(x)
+""", "walking a materialised list twice is fine (a TypeError for an ill-typed item behind a literal True is outside the property)")
+mutant("slc-coordinate-key-walked-twice", "C13", ARRAY, """            data = []
+            for idx in key:
+                if not isinstance(idx, tuple) or len(idx) != 2:
+                    raise TypeError("values in index arrays must be tuples of 2 elements")
+                y, x = idx
+                if not isinstance(y, int) or not isinstance(x, int):
+                    raise TypeError("tuple elements for indexing must be of int type")
+                data.append(self._getitem_impl((y, x)))
+            return Array1D(data)
+""", """            for idx in key:
+                if not isinstance(idx, tuple) or len(idx) != 2:
+                    raise TypeError("values in index arrays must be tuples of 2 elements")
+                y, x = idx
+                if not isinstance(y, int) or not isinstance(x, int):
+                    raise TypeError("tuple elements for indexing must be of int type")
+            return Array1D(self._getitem_impl(idx) for idx in key)
+""", "SLC-G")
+variant("slc-coordinate-key-materialised-first", "C13", ARRAY, """            data = []
+            for idx in key:
+                if not isinstance(idx, tuple) or len(idx) != 2:""", """            data = []
+            key = list(key)
+            for idx in key:
+                if not isinstance(idx, tuple) or len(idx) != 2:""", "materialising the key first is fine")
+mutant("rt-oneof-keeps-the-callers-list", "C15", SER, """        self._choices: List[Combinator[T]] = []
+        for choice in choices:
+            if isinstance(choice, list):
+                self._choices += choice
+            else:
+                self._choices.append(choice)
+""", """        self._choices: List[Combinator[T]] = choices[0] if choices and isinstance(choices[0], list) else []
+        for choice in choices[1 if choices and isinstance(choices[0], list) else 0:]:
+            if isinstance(choice, list):
+                self._choices += choice
+            else:
+                self._choices.append(choice)
+""", "RT-LEAF")
+mutant("sgr5-declarations-kept-as-map-object", ["C03", "C02"], SUGAR, ["        self.converted_variables = list(map(_convert_variable, self.variables))",
+       '        csp_description = "\\n".join(self.converted_variables + self.converted_constraints)'],
+       ["        self.converted_variables = map(_convert_variable, self.variables)",
+        '        csp_description = "\\n".join([*self.converted_variables, *self.converted_constraints])'], "SGR-5")
+variant("sgr5-declarations-by-comprehension-unpacked", ["C03", "C02"], SUGAR, ["        self.converted_variables = list(map(_convert_variable, self.variables))",
+       '        csp_description = "\\n".join(self.converted_variables + self.converted_constraints)'],
+       ["        self.converted_variables = [_convert_variable(v) for v in self.variables]",
+        '        csp_description = "\\n".join([*self.converted_variables, *self.converted_constraints])'], "a list can be unpacked any number of times")
+mutant("cfg4-flag-read-through-default-argument", ["C20", "C04"], GRAPH, ["""    if use_graph_primitive is None:
+        use_graph_primitive = config.use_graph_primitive
+    if use_graph_primitive and not acyclic:""", """def _active_vertices_connected(
+"""], ["""    use_graph_primitive = _flag_or_default(use_graph_primitive)
+    if use_graph_primitive and not acyclic:""", """def _flag_or_default(flag: Optional[bool], default: bool = config.use_graph_primitive) -> bool:
+    return default if flag is None else flag
+
+
+def _active_vertices_connected(
+"""], "CFG-4")
+variant("cfg4-flag-read-through-helper-at-call-time", ["C20", "C04"], GRAPH, ["""    if use_graph_primitive is None:
+        use_graph_primitive = config.use_graph_primitive
+    if use_graph_primitive and not acyclic:""", """def _active_vertices_connected(
+"""], ["""    use_graph_primitive = _flag_or_default(use_graph_primitive)
+    if use_graph_primitive and not acyclic:""", """def _flag_or_default(flag: Optional[bool]) -> bool:
+    return config.use_graph_primitive if flag is None else flag
+
+
+def _active_vertices_connected(
+"""], "the helper reads the configuration when it is called")
